@@ -964,6 +964,9 @@ class CircuitTemplate(AbstractBaseTemplate):
                     else:
                         nodes.append(n)
             else:
+                if node_lvl not in net:
+                    # e.g. `all/sub0/...` where one of the branches matched by `all` has no member `sub0`
+                    return list()
                 net_tmp = net[node_lvl]
                 if isinstance(net_tmp, CircuitTemplate):
                     for n in net_tmp.get_nodes(node_identifier[1:], var_identifier):
